@@ -1,4 +1,18 @@
-"""C12 — the output is a deterministic function of the inputs."""
+"""C12 — the output is a deterministic function of the inputs.
+
+(a) model correspondence (model_correspondence): generated projects are run in-process through the whole of
+    ford.main with ford.fortran_project.find_all_files forced to a given order; every NameSelector request is
+    attributed to the loop of the pipeline (the phases of Out/Project.v) and the file it was issued for.  The
+    segments measured under the first order are the model's input; the Coq judge must reproduce the identifier
+    of every entity under every other order (bit0), the runs must agree (bit1, the property), projects whose
+    names compete are the known region 1.
+    graph_emission: the node order of every graph hop against the model's sorted emission.
+(b) the property on real runs (e2e): `python -m ford` in subprocesses, one fixed directory per project,
+    several PYTHONHASHSEED values, parallel in {0, 2, 8}, output directory absent / stale from another project /
+    from the same project; recursive byte comparison; a difference is accepted only when the canonicalisation
+    of an applicable recorded finding (harness/impl/c12run.py apply_canon) removes it.
+(c) findings: the witness of every recorded finding is replayed; KNOWN-FINDING lines come from here only.
+"""
 import itertools
 import os
 import re
